@@ -17,7 +17,8 @@ REPO = os.environ.get("VERIF_REPO", "/repo")
 COQ = os.path.join(VERIF, "coq")
 BUILD = os.path.join(VERIF, "_build")
 RUNNER_DIR = os.path.join(BUILD, "runner")
-EVIDENCE = os.path.join(VERIF, "evidence")
+# VERIF_EVIDENCE_DIR: development runs against scratch copies (seeded changes) must not overwrite the evidence of the real tree
+EVIDENCE = os.environ.get("VERIF_EVIDENCE_DIR") or os.path.join(VERIF, "evidence")
 REPLAYS = os.path.join(EVIDENCE, "replays")
 PY = "/venv/bin/python"
 
